@@ -24,11 +24,14 @@ EXTENDS Integers, Sequences, TLC
 CONSTANT CrossLocks        \* canary: an importer that stores lock-previous under lock-range and vice versa
 
 \* ---- numerals ---------------------------------------------------------------------------------------
-NoNum == [k |-> "none", neg |-> FALSE, ip |-> 0, fp |-> 0]
-Num(neg, ip, fp) == [k |-> "num", neg |-> neg, ip |-> ip, fp |-> fp]
-NanN  == [k |-> "nan",  neg |-> FALSE, ip |-> 0, fp |-> 0]
-PInfN == [k |-> "inf",  neg |-> FALSE, ip |-> 0, fp |-> 0]
-NInfN == [k |-> "-inf", neg |-> TRUE,  ip |-> 0, fp |-> 0]
+\* TLC's integers are 32-bit: an integer part of 10 digits or more is held as `hi` (its leading digits, a string) followed by
+\* the nine digits of `ip`;  hi = "" for every integer part below 10^9
+NoNum == [k |-> "none", neg |-> FALSE, hi |-> "", ip |-> 0, fp |-> 0]
+Num(neg, ip, fp) == [k |-> "num", neg |-> neg, hi |-> "", ip |-> ip, fp |-> fp]
+Big(neg, hi, ip, fp) == [k |-> "num", neg |-> neg, hi |-> hi, ip |-> ip, fp |-> fp]
+NanN  == [k |-> "nan",  neg |-> FALSE, hi |-> "", ip |-> 0, fp |-> 0]
+PInfN == [k |-> "inf",  neg |-> FALSE, hi |-> "", ip |-> 0, fp |-> 0]
+NInfN == [k |-> "-inf", neg |-> TRUE,  hi |-> "", ip |-> 0, fp |-> 0]
 OneN  == Num(FALSE, 1, 0)
 ZeroN == Num(FALSE, 0, 0)
 RECURSIVE Pow10(_)
@@ -36,12 +39,13 @@ Pow10(n) == IF n = 0 THEN 1 ELSE 10 * Pow10(n - 1)
 RECURSIVE Pad(_,_)
 Pad(str, n) == IF Len(str) >= n THEN str ELSE Pad("0" \o str, n)
 \* Op.str: f"{x:.{decimals}f}"
+IntPart(x) == IF x.hi = "" THEN ToString(x.ip) ELSE x.hi \o Pad(ToString(x.ip), 9)
 Fmt(x, dec) == IF x.k = "num"
-               THEN (IF x.neg THEN "-" ELSE "") \o ToString(x.ip) \o (IF dec = 0 THEN "" ELSE "." \o Pad(ToString(x.fp), dec))
+               THEN (IF x.neg THEN "-" ELSE "") \o IntPart(x) \o (IF dec = 0 THEN "" ELSE "." \o Pad(ToString(x.fp), dec))
                ELSE x.k
 \* Op.is_close(x, 1.0) with the default tolerances (atol = 0.001, rtol = 0), on numerals
 Tol(dec) == Pow10(dec) \div 1000
-CloseOne(x, dec) == x.k = "num" /\ ~x.neg /\ ((x.ip = 1 /\ x.fp <= Tol(dec)) \/ (x.ip = 0 /\ Pow10(dec) - x.fp <= Tol(dec)))
+CloseOne(x, dec) == x.k = "num" /\ ~x.neg /\ x.hi = "" /\ ((x.ip = 1 /\ x.fp <= Tol(dec)) \/ (x.ip = 0 /\ Pow10(dec) - x.fp <= Tol(dec)))
 
 \* ---- tokens and lines -----------------------------------------------------------------------------------
 W(s)       == [s |-> s, n |-> NoNum, i |-> -1]
@@ -229,7 +233,7 @@ WithoutDefaults(lines) == SelectSeq(lines, LAMBDA ln : ~IsDefaultLine(ln))
 \* 3: `none` left out
 EmptyForNone(lines) == [j \in 1..Len(lines) |-> IF Strs(lines[j].val) = <<"none">> THEN [lines[j] EXCEPT !.val = <<>>] ELSE lines[j]]
 \* 4: other spellings of the same numbers
-Respell(tok) == IF tok.n.k = "num" /\ tok.n.fp = 0 /\ ~(tok.n.neg /\ tok.n.ip = 0) THEN [tok EXCEPT !.s = (IF tok.n.neg THEN "-" ELSE "") \o ToString(tok.n.ip)]
+Respell(tok) == IF tok.n.k = "num" /\ tok.n.fp = 0 /\ ~(tok.n.neg /\ tok.n.ip = 0) THEN [tok EXCEPT !.s = (IF tok.n.neg THEN "-" ELSE "") \o IntPart(tok.n)]
                 ELSE IF tok.n.k = "nan" THEN [tok EXCEPT !.s = "NaN"]
                 ELSE IF tok.n.k = "inf" THEN [tok EXCEPT !.s = "+inf"]
                 ELSE IF tok.n.k = "-inf" THEN [tok EXCEPT !.s = "-Infinity"]
